@@ -179,7 +179,7 @@ func Run(r *ev.Run, replay string) {
 		history(r, w)
 		r.Count("witness_histories", 1)
 	}
-	n := r.N(20000, 200000)
+	n := r.N(20000, 1500000)
 	var wg sync.WaitGroup
 	for sh := 0; sh < 8; sh++ {
 		wg.Add(1)
